@@ -1214,6 +1214,10 @@ castexpr(struct scope *s)
 		}
 		expect(TRPAREN, "after type name");
 		if (tok.kind == TLBRACE) {
+			if (t->kind == TYPEARRAY && t->incomplete) {
+				/* the initializer completes the type of this literal, not a typedef it was written with */
+				t = mkarraytype(t->base, t->qual, 0);
+			}
 			e = mkexpr(EXPRCOMPOUND, t, NULL);
 			e->toeval = toeval;
 			e->qual = tq;
